@@ -10,13 +10,13 @@ import (
 // ---------------------------------------------------------------------------
 
 type ValCfg struct {
-	SelfBond   string `json:"self_bond"`   // base units of the bond denom
-	Commission string `json:"commission"`  // decimal string
+	SelfBond   string `json:"self_bond"`  // base units of the bond denom
+	Commission string `json:"commission"` // decimal string
 }
 
 type AssetCfg struct {
-	Genesis       bool   `json:"genesis"`         // whitelisted at genesis (otherwise only through a gov_create op)
-	Unit          string `json:"unit"`            // typical magnitude of one stake operation, base units
+	Genesis       bool   `json:"genesis"` // whitelisted at genesis (otherwise only through a gov_create op)
+	Unit          string `json:"unit"`    // typical magnitude of one stake operation, base units
 	Weight        string `json:"weight"`
 	WeightMin     string `json:"weight_min"`
 	WeightMax     string `json:"weight_max"`
@@ -33,18 +33,18 @@ type Config struct {
 	Assets     []AssetCfg `json:"assets"`
 
 	// alliance params
-	RewardDelayNs    int64 `json:"reward_delay_ns"`
-	TakeRateIntvlNs  int64 `json:"take_rate_interval_ns"`
+	RewardDelayNs   int64 `json:"reward_delay_ns"`
+	TakeRateIntvlNs int64 `json:"take_rate_interval_ns"`
 	// staking / slashing params
-	UnbondingTimeNs  int64  `json:"unbonding_time_ns"`
-	MaxValidators    uint32 `json:"max_validators"`
-	SignedWindow     int64  `json:"signed_window"`
-	MinSigned        string `json:"min_signed"`
-	SlashDowntime    string `json:"slash_downtime"`
-	SlashDoubleSign  string `json:"slash_double_sign"`
-	JailNs           int64  `json:"jail_ns"`
+	UnbondingTimeNs int64  `json:"unbonding_time_ns"`
+	MaxValidators   uint32 `json:"max_validators"`
+	SignedWindow    int64  `json:"signed_window"`
+	MinSigned       string `json:"min_signed"`
+	SlashDowntime   string `json:"slash_downtime"`
+	SlashDoubleSign string `json:"slash_double_sign"`
+	JailNs          int64  `json:"jail_ns"`
 	// mint
-	Inflation     string `json:"inflation"`       // "0" disables minting
+	Inflation     string `json:"inflation"` // "0" disables minting
 	BlocksPerYear uint64 `json:"blocks_per_year"`
 	// distribution
 	CommunityTax string `json:"community_tax"`
